@@ -277,7 +277,47 @@ def gen_spec(rng, desc=None):
     return s
 
 
+def zero_variable_pair(rng):
+    """equal shapes whose variable sets differ only in a variable with zero linear bias and no interaction;
+    the differing variable of each side is registered in the other side's parent CQM (where there is one)"""
+    desc = rand_desc(rng, nmax=3)
+    a = gen_spec(rng, desc)
+    used = {str(v[0]) for v in desc["vars"]}
+    fresh = [enc_label(l) for l in gen.LABEL_POOL + ['zz', 11, 13] if str(enc_label(l)) not in used]
+    rng.shuffle(fresh)
+    lx, lz = fresh[0], fresh[1]
+    vt = desc["vars"][0][1] if (is_single(desc) and desc["vars"]) else rng.choice(['BINARY', 'SPIN', 'INTEGER', 'REAL'])
+    if a["form"].startswith('bqm') and not desc["vars"]:
+        vt = rng.choice(['BINARY', 'SPIN'])
+        desc["vartype"] = vt
+    b = copy.deepcopy(a)
+    for s_, l in ((a, lx), (b, lz)):
+        d = s_["desc"]
+        pos = rng.randint(0, len(d["vars"]))
+        d["vars"].insert(pos, [l, vt])
+        d["lin"].insert(pos, [l, "0"])
+        for c in s_.get("cons", []):
+            if rng.random() < 0.5:
+                c["lhs"]["vars"].append([l, vt])
+                c["lhs"]["lin"].append([l, "0"])
+    a["parent_extra"], b["parent_extra"] = [[lz, vt]], [[lx, vt]]
+    if a["form"] == 'cqm':
+        a["unused"], b["unused"] = [[lz, vt]], [[lx, vt]]
+    else:
+        fs = [f for f in forms_for(b["desc"]) if f != 'cqm']
+        b["form"] = rng.choice(fs + ['objview', 'conview'] * 3)
+        if b["form"] == 'bqmview':
+            b["view_of"] = 'same'
+        if rng.random() < 0.6:
+            a["form"] = rng.choice(['objview', 'conview'])
+    b["mut"] = 'zerovar'
+    return (a, b) if rng.random() < 0.5 else (b, a)
+
+
 def gen_case(rng, tier):
+    if rng.random() < 0.10:
+        a, b = zero_variable_pair(rng)
+        return {"a": a, "b": b}
     if rng.random() < 0.14:
         # same labels / vartypes / linear part / shape / degrees, different interaction sets
         a = gen_spec(rng, rand_switch_desc(rng))
@@ -388,6 +428,12 @@ def build(s, keep):
         return build_qm(d, np.float64 if f == 'qm' else np.float32)
     cqm = dimod.ConstrainedQuadraticModel()
     keep.append(cqm)
+    # variables the parent CQM knows although the expression itself does not use them
+    for l, vt in s.get("parent_extra", []):
+        if vt in ('INTEGER', 'REAL'):
+            cqm.add_variable(vt, dec_label(l), lower_bound=-4, upper_bound=9)
+        else:
+            cqm.add_variable(vt, dec_label(l))
     if f == 'objview':
         cqm.set_objective(build_qm(d))
         return cqm.objective
@@ -496,6 +542,19 @@ def run_case(c):
         ne = call(lambda: a != b)
         if ne != ("ok", not ab[1]):
             py_fail = f"a != number gave {ne}, a.is_equal(number) gave {ab}"
+    # open finding: a view's get_linear / vartype answer (0.0 / the CQM's vartype) for a variable of the parent
+    # CQM that the expression does not contain, so is_almost_equal accepts models over DIFFERENT labels.
+    # Only classified when is_equal itself answered correctly (False both ways).
+    def labelsets(x):
+        if isinstance(x, dimod.ConstrainedQuadraticModel):
+            return [frozenset(map(repr, x.objective.variables))] + \
+                   [(repr(l), frozenset(map(repr, k.lhs.variables))) for l, k in sorted(x.constraints.items(), key=lambda t: repr(t[0]))]
+        return frozenset(map(repr, x.variables)) if hasattr(x, 'variables') else None
+    involved = lambda x: isinstance(x, dimod.ConstrainedQuadraticModel) or type(x).__name__ in ('ObjectiveView', 'ConstraintView')
+    if ((involved(a) or involved(b)) and labelsets(a) is not None and labelsets(b) is not None
+            and labelsets(a) != labelsets(b) and ab == ("ok", False) and ba in (None, ("ok", False))
+            and any(r == ("ok", True) for _, r in almost)):
+        feats = {"almost_equal_parent_variable": True}
     ca, cb = c_obj(a, T, CT), c_obj(b, T, CT)
     cba = "None" if ba is None else f"(Some {cres(ba)})"
     calm = clist([cpair(cnat(p), cres(r)) for p, r in almost])
